@@ -386,6 +386,15 @@ func (ex *Exec) applyContract(fr *Frame, st *State, fc *FuncContract, fn *ssa.Fu
 		}
 	} else if fn != nil && ex.isTargetFn(fn) {
 		ex.havocInferred(st, ex.prog.Pre.WriteSet[fn])
+		// the callee may also write through pointers to the caller's local
+		// (or captured) variables handed to it
+		for _, a := range args {
+			if l, ok := a.(Loc); ok && l.Cell != nil {
+				if _, present := st.Cells[l.Cell]; present && l.Cell.Type != nil {
+					st.Cells[l.Cell] = ex.fresh(st, "viaptr!"+l.Cell.Name, l.Cell.Type)
+				}
+			}
+		}
 	}
 	for _, k := range fc.Havoc {
 		if strings.HasSuffix(k, "*") {
